@@ -1255,6 +1255,9 @@ where
                     if offset_table.is_none() {
                         offset_table = Some(Vec::new())
                     }
+                    // the basic offset table item is over,
+                    // even when it was empty and yielded no value token
+                    first = false;
                 }
                 LazyDataToken::ItemStart { len: _ } => { /* no-op */ }
                 LazyDataToken::SequenceEnd => {
